@@ -561,6 +561,16 @@ func (g *gen) rewritePkgRefs(info *types.Info, node ast.Node) ast.Node {
 			// need further rewriting.
 			return true
 		}
+		if v, ok := obj.(*types.Var); ok && v.Embedded() {
+			// The identifier of an embedded field also names its type. If that
+			// type is a local that was renamed, the field is renamed with it,
+			// and so are the selectors and literal keys that mention the field.
+			if n, ok := newNames[info.Uses[id]]; ok && info.Uses[id] != nil {
+				newNames[obj] = n
+				c.Replace(ast.NewIdent(n))
+				return false
+			}
+		}
 		if n, ok := guardNames[obj.Pos()]; ok {
 			// A clause's implicit variable: follow the symbolic variable.
 			if n != id.Name {
